@@ -839,7 +839,7 @@ func (h *harness) snapshot() *absState {
 	return h.w.abstract(h.pool.VerifQiSnapshot(), h.chain.headID())
 }
 
-// addOne hands one Qi transaction to the pool the way the network / RPC layers do; a panic is a result
+// addOne hands one Qi transaction to the pool the way the network / RPC layers do; a panic is recovered and reported
 func (h *harness) addOne(id string, local bool) (res string) {
 	defer func() {
 		if r := recover(); r != nil {
